@@ -46,6 +46,7 @@ func (s *Server) serveSign(rw http.ResponseWriter, request *http.Request) error 
 		return httperror.MissingParameterError("filename")
 	}
 	sigType := query.Get("sigtype")
+	verifhook.Emit("SignRecv", "rid", filename)
 	// authorize key
 	userInfo := authmodel.RequestInfo(request)
 	keyConf, err := s.Config.GetKey(keyName)
